@@ -14,7 +14,8 @@ import VaxisModel.Spec.VT500
 `P:<runes>` `C:<rune>` `E:<inter>:<final>` `S:<rune>` `I:<inter>:<params>:<final>` `O:<payload>`
 `D:<final>:<inter>:<params>:<data>` `A:<data>` `X` (error value) `Z` (EOF) `!` (panic);
 runes are hex joined by `.`, `-` = empty/nil; params decimal, `.` between sub-parameters, `,`
-between parameters.
+between parameters.  A trailing `STDLIB!<clause>` token = the harness found that clause of the
+standard-library contract (`Model/ParserStdlib.lean`) violated by the real library on this case's reads.
 
 Output: model-canon = the model (interpreting the *regenerated* table, with the same reads and the
 same cluster oracle), impl-canon = the implementation's items, verdict = the Spec machine
@@ -151,7 +152,12 @@ def blocksComplaint (bytes : List Nat) (sizes : List Nat) (cl : Nat → Nat) (to
 
 def verdict (bytes : List Nat) (impl : String) : String :=
   let toks := (impl.splitOn " ").filter (· ≠ "")
-  if toks.any (·.startsWith "W!") then "FAIL Print width differs from the width of its grapheme: " ++ impl
+  -- the harness found a clause of `Model/ParserStdlib.lean : StdlibContract` violated by the real
+  -- unicode/utf8 / bufio.Reader on the reads of this case (marker `STDLIB!<clause>`)
+  if toks.any (·.startsWith "STDLIB!") then
+    "FAIL[stdlib-contract] the standard library does not meet the contract the reader model assumes: " ++
+      " ".intercalate (toks.filter (·.startsWith "STDLIB!"))
+  else if toks.any (·.startsWith "W!") then "FAIL Print width differs from the width of its grapheme: " ++ impl
   else if toks.contains "!" then "FAIL panic"
   else if toks.contains "hang" then "FAIL hang"
   else if toks.getLast? ≠ some "Z" then "FAIL last item is not EOF"
